@@ -1,15 +1,25 @@
 import json
 import os
+import re
 
+import lib
 from lib import TieCheck, build_harness, go_env, sh, WORKROOT
+
+# tie A (docs/GenCtx.md): files of coq/C12 that exist only for the regenerated life-cycle methods
+TIE_FILES = ["GenCtx.v", "BridgeCtx.v", "SrcCtx.v", "Props_GenCtx.v", "Props_GenCtx_src.v"]
 
 
 class C12(TieCheck):
     pid = "C12"
     area = "C12"
-    props = "Props_C12.v"
+    props = ["Props_C12.v", "Props_GenCtx.v", "Props_GenCtx_src.v"]
     harness = "c12"
     extra_trust = [
+        "tie A: harness/cmd/ctxgen rewrites coq/C12/GenCtx.v on every run from context.go / response_writer.go of the tree under "
+        "test ((*cTx).reset, resetNil, resetWithWriter, (*recorder).reset, copyWithResize, CloneWith, Param, Params, Clone; statement by "
+        "statement through a whitelist of shapes, field lists of cTx / recorder / Param read from the type declarations; anything "
+        "else is refused); coq/C12/BridgeCtx.v proves each generated definition equal to the hand-written one for all arguments; "
+        "trusted: the translator and coq/C12/CtxSem.v (meaning of deref, index, range, yield, slices.Grow, 3-index reslice, copy, calls through the interface value c.w)",
         "model: coq/C12/Context.v (cTx with every field, reset/resetNil/resetWithWriter, ServeHTTP and Lookup branch "
         "assignments, getters (Params and, separately, Param(name)), Clone, CloneWith, copyWithResize, embedded recorder) over an explicit heap; coq/C12/Ops.v "
         "(histories); spec: coq/C12/Spec.v (the view derived from the current request only)",
@@ -26,6 +36,47 @@ class C12(TieCheck):
         "implementations are out of scope (every fox.ResponseWriter in the model is a recorder)",
         "pool ownership invariant (pool_ok / sep): the two Params backing arrays of a pooled context are private to it",
     ]
+
+    def gen(self, tier):
+        """tie A: regenerate GenCtx.v from the tree under test, then build the bridge.  A refusal or a bridge
+        lemma that no longer compiles is a generated-model problem; C12's own obligations (Props_C12.v) and the
+        correspondence are then still checked, without the tie files."""
+        area = os.path.join(lib.COQ, "C12")
+        all_v = [l.strip() for l in open(os.path.join(area, "_CoqProject")) if l.strip().endswith(".v")]
+        # default: the tie is broken (set back below when everything built)
+        self.props = ["Props_C12.v"]
+        self.coq_targets = [v[:-2] + ".vo" for v in all_v if v not in TIE_FILES and v != "Props_C12.v"]
+        g, lg = build_harness("ctxgen")
+        if g is None:
+            return False, "ctxgen does not build:\n" + lg
+        with lib.Lock("coq.C12"):
+            rc, o = sh([g, "repo=" + os.path.abspath(lib.REPO), "out=" + os.path.join(area, "GenCtx.v")], env=go_env(), timeout=600)
+        if rc != 0:
+            return False, "ctxgen (harness/cmd/ctxgen, docs/GenCtx.md) rc=%d:\n%s" % (rc, o[-2500:])
+        ok, lgb = lib.coq_build("C12", targets=[v[:-2] + ".vo" for v in TIE_FILES])
+        if not ok:
+            # make's log keeps only the tail of a long unification error: compile the tie files one by one
+            # to name the file, the line and the lemma that no longer holds
+            where, head = "", ""
+            for v in TIE_FILES:
+                with lib.Lock("coq.C12"):
+                    rc1, o1 = sh(["timeout", "900", "coqc"] + lib.qflags("C12") + [v], cwd=area, timeout=1000)
+                if rc1 != 0:
+                    head = o1[:1500]
+                    m = re.search(r'File "\./(\w+\.v)", line (\d+)', o1)
+                    if m:
+                        try:
+                            src = open(os.path.join(area, m.group(1))).read().splitlines()[:int(m.group(2))]
+                            names = re.findall(r"^\s*(?:Lemma|Theorem|Example|Definition|Corollary)\s+([A-Za-z0-9_']+)", "\n".join(src), re.M)
+                            if names:
+                                where = "%s: `%s` (line %s) no longer holds of the generated definitions\n" % (m.group(1), names[-1], m.group(2))
+                        except Exception:  # noqa
+                            pass
+                    break
+            return False, "tie A (ctxgen / bridge lemmas, docs/GenCtx.md): " + where + head + "\n...\n" + lgb[-1000:]
+        self.props = ["Props_C12.v", "Props_GenCtx.v", "Props_GenCtx_src.v"]
+        self.coq_targets = None
+        return True, o
 
     def harness_args(self, tier):
         # thorough: many small case files (a coqc process on a 6 MB file needs several GB; 16 run in parallel)
